@@ -145,6 +145,8 @@ class BaseIntervalScorer(BaseEstimator):
                 f"All entries in `cuts` must be between 0 and {n_samples}, the number"
                 " of samples in the fitted data."
             )
+        # The scorers do arithmetic on the locations that assumes signed integers.
+        cuts = cuts.astype(np.int64, copy=False)
 
         values = self._evaluate(cuts)
         return values
